@@ -32,14 +32,18 @@ def run(ctx):
                         "write-then-rename is taken to be atomic",
                         "directory changes happen only while the crawler has yielded (it runs synchronously)"]
     if ctx.quick:
-        mcc = dict(NP=3, Universe="{11, 12, 21}", MaxBuckets=3, MaxCycles=2, MaxKills=1, MaxChanges=1)
+        mccs = [dict(NP=3, Universe="{11, 12, 21}", MaxBuckets=3, MaxCycles=2, MaxKills=1, MaxChanges=1)]
     else:
-        mcc = dict(NP=3, Universe="{11, 12, 13, 21, 22, 31}", MaxBuckets=6, MaxCycles=2, MaxKills=2, MaxChanges=1)
-    ctx.constants["MC"] = mcc
-    r = ctx.mc("storage/MCCrawler", mc_cfg(mcc), name="MC crawler", timeout=3000)
+        mccs = [dict(NP=3, Universe="{11, 12, 13, 21, 22, 31}", MaxBuckets=6, MaxCycles=2, MaxKills=2, MaxChanges=1)]
+    ctx.constants["MC"] = mccs
+    cov = {}
+    for n, mcc in enumerate(mccs):
+        r = ctx.mc("storage/MCCrawler", mc_cfg(mcc), name="MC crawler %d" % n, timeout=3000)
+        for k, v in r.coverage.items():
+            cov[k] = cov.get(k, 0) + v[0]
     ctx.exhaustive = True
-    for a in ("AProcessBucket", "AFinishPrefix", "ASliceEnd", "AKill", "ARestart", "AFinishCycle", "ASaveCycle"):
-        if r.coverage and not r.coverage.get(a, (0, 0))[0]:
+    for a in ("MProcessBucket", "MFinishPrefix", "MSliceEnd", "MKill", "MRestart", "MFinishCycle", "MSaveCycle", "MAddBucket", "MRemoveBucket"):
+        if cov and not cov.get(a, 0):
             ctx.notes.append("MC: action %s never taken" % a)
 
     # behaviours of the Spec for the replay
